@@ -123,6 +123,12 @@ Proof.
         pose proof (f_equal (@List.length byte) F) as L. rewrite firstn_length in L. lia.
 Qed.
 
+Lemma frames_length bodies : (List.length bodies <= List.length (frames bodies))%nat.
+Proof.
+  induction bodies as [|b t IH]; [cbn; lia|]. rewrite frames_cons, app_length. unfold frame. rewrite app_length, be_length.
+  cbn [List.length]. lia.
+Qed.
+
 Section Cut.
 Variable c : cfg.
 Variable HASH : desc -> Z.
@@ -170,31 +176,33 @@ Proof. revert n; induction l as [|x l IH]; intros [|n] H; cbn; try constructor; 
    The reader processes exactly the complete frames before the cut (same registry evolution as on the uncut
    stream), then ends cleanly (cut on a frame boundary or inside a 4-byte length prefix) or raises (cut inside
    a body).  It never sees a body other than the written ones. *)
-Theorem cut_stream depth (ms : list mv) (reg : registry) (k : nat) :
-  Forall (fun m => mv_wf m = true /\ small (enc m)) ms ->
-  let bodies := map enc ms in
+Definition is_encoding (b : bytes) : Prop := exists m, b = enc m /\ mv_wf m = true /\ small (enc m).
+
+Theorem cut_stream depth (bodies : list bytes) (reg : registry) (k : nat) (fuel : nat) :
+  Forall is_encoding bodies ->
+  (List.length (firstn k (frames bodies)) < fuel)%nat ->
   exists j oc,
-    read_loop c HASH (S (List.length bodies)) depth reg (firstn k (frames bodies)) =
+    read_loop c HASH fuel depth reg (firstn k (frames bodies)) =
     run_bodies c HASH depth reg (firstn j bodies) (fun _ => ([], oc)).
 Proof.
-  intros Hms bodies.
+  intros Hms Hfuel.
   assert (Hsmall : Forall small bodies).
-  { unfold bodies. apply Forall_map. eapply Forall_impl; [|exact Hms]. intros m [_ H]. exact H. }
+  { eapply Forall_impl; [|exact Hms]. intros b (m & -> & _ & H). exact H. }
   destruct (prefix_of_frames bodies k) as (j & tail & E & Ht).
   assert (Hj : Forall small (firstn j bodies)) by (apply Forall_firstn'; exact Hsmall).
-  assert (Lj : (List.length (firstn j bodies) <= List.length bodies)%nat) by (rewrite firstn_length; lia).
-  rewrite E.
-  set (F := (S (List.length bodies) - List.length (firstn j bodies))%nat).
-  assert (HF : exists F', F = S F') by (exists (List.length bodies - List.length (firstn j bodies))%nat; unfold F; lia).
+  rewrite E in Hfuel |- *.
+  assert (Lj : (List.length (firstn j bodies) < fuel)%nat).
+  { pose proof (frames_length (firstn j bodies)). rewrite app_length in Hfuel. lia. }
+  set (F := (fuel - List.length (firstn j bodies))%nat).
+  assert (HF : exists F', F = S F') by (exists (fuel - List.length (firstn j bodies) - 1)%nat; unfold F; lia).
   destruct HF as [F' HF].
-  rewrite (read_loop_frames c HASH depth (firstn j bodies) reg tail (S (List.length bodies)) F Hj
+  rewrite (read_loop_frames c HASH depth (firstn j bodies) reg tail fuel F Hj
              ltac:(unfold F; lia) ltac:(intros; reflexivity)).
   fold F. rewrite HF.
   destruct Ht as [->|(b & rest & Hn & Hf & Hr)].
   - exists j, CleanEOF. apply run_bodies_ext. intros reg'. reflexivity.
   - assert (Hb : exists m, b = enc m /\ mv_wf m = true /\ small (enc m)).
-    { unfold bodies in Hn. apply nth_error_In in Hn. apply in_map_iff in Hn. destruct Hn as (m & <- & Hin).
-      rewrite Forall_forall in Hms. destruct (Hms m Hin). exists m. repeat split; assumption. }
+    { apply nth_error_In in Hn. rewrite Forall_forall in Hms. exact (Hms b Hn). }
     destruct Hb as (m & -> & Hwf & Hsm).
     destruct (Nat.lt_ge_cases (List.length tail) 4) as [Hshort|Hlong].
     + exists j, CleanEOF. apply run_bodies_ext. intros reg'. apply read_loop_short_tail. exact Hshort.
